@@ -765,6 +765,67 @@ func (g *c14Gen) summaryCanonical() {
 	g.w.stats["summary_histories"]++
 }
 
+// a scenario re-posted under ITS OWN NAME with other content (a vegetation target that changes which actions it
+// offers): everything the engine derived from the earlier posting -- solution pool, its reference model, the as-is
+// solution -- is replaced; summaries for the new posting are served from the new posting's model
+func (g *c14Gen) repostSameName() {
+	e := g.w.newEngine("scenario-reposted-under-its-own-name")
+	variants := []string{g.valid, g.valid + "RiparianBufferVegetationProportionTarget = 0.2\n", g.valid + "GullySedimentReductionTarget = 0.5\nHillSlopeDeliveryRatio = 0.2\n", g.valid}
+	labels := []string{"1-of-3", "2-of-3", "3-of-3"}
+	for round, text := range variants {
+		e.send(c14Req{"POST", c14Api + "/scenario", c14Toml, text})
+		d := e.currentDesc()
+		if d == nil || e.dead {
+			break
+		}
+		encs := map[string]string{}
+		for _, l := range labels {
+			encs[l] = c14Encoding(g.randomBits(d))
+		}
+		e.send(c14Req{"POST", c14Api + "/solutions", c14Csv, g.summaryWith(d, labels, encs, fmt.Sprintf("posting %d", round))})
+		for _, l := range append([]string{"As-Is"}, labels...) {
+			if !e.dead {
+				e.send(c14Req{"GET", c14Api + "/solutions/" + l, "", ""})
+			}
+		}
+		e.send(c14Req{"PATCH", c14Api + "/model", c14Json, `[{"Name":"Encoding","Value":"` + encs["2-of-3"] + `"}]`})
+		e.send(c14Req{"GET", c14Api + "/model", "", ""})
+	}
+	e.finish("summary-history")
+	g.w.stats["same_name_repost_histories"]++
+}
+
+// a LARGE solution set browsed label by label and the as-is row requested again afterwards (and every label a second
+// time): however many solutions the engine has looked up, each label is served from its row of the current summary
+func (g *c14Gen) manyLabels(n int) {
+	e := g.w.newEngine("many-labels-browsed")
+	e.send(c14Req{"POST", c14Api + "/scenario", c14Toml, g.valid})
+	d := e.currentDesc()
+	if d == nil {
+		e.finish("summary-history")
+		return
+	}
+	labels := []string{}
+	encs := map[string]string{}
+	for i := 1; i <= n; i++ {
+		l := fmt.Sprintf("%d-of-%d", i, n)
+		labels = append(labels, l)
+		encs[l] = c14Encoding(g.randomBits(d))
+	}
+	e.send(c14Req{"POST", c14Api + "/solutions", c14Csv, g.summaryWith(d, labels, encs, "large set")})
+	for pass := 0; pass < 2 && !e.dead; pass++ {
+		e.send(c14Req{"GET", c14Api + "/solutions/As-Is", "", ""})
+		for _, l := range labels {
+			if !e.dead {
+				e.send(c14Req{"GET", c14Api + "/solutions/" + l, "", ""})
+			}
+		}
+	}
+	e.send(c14Req{"GET", c14Api + "/solutions/As-Is", "", ""})
+	e.finish("summary-history")
+	g.w.stats["many_label_histories"]++
+}
+
 func c14Perm(p *prng, n int) []int {
 	out := make([]int, n)
 	for i := range out {
